@@ -8,7 +8,10 @@ NAMEC = ["a-z", "A-Z", "0-9", ".", "_", "+", "-"]
 VERC = ["a-z", "A-Z", "0-9", ".", "_", "+", "~", "^"]
 
 
-def nvra_roundtrip(sym, with_dir, with_epoch, with_rpm, n_name, n_ver, n_rel, n_dir):
+ANYDIR = [(32, 126)]          # any printable ASCII character, ':' '-' '.' and blanks included ("any directory prefix")
+
+
+def nvra_roundtrip(sym, with_dir, with_epoch, with_rpm, n_name, n_ver, n_rel, n_dir, any_dir=False):
     """for every legal (name, epoch, version, release, arch) the parser returns exactly those parts"""
     name = sym.str("name", n_name, minlen=1, alphabet=NAMEC)
     # dash separated, non-empty segments
@@ -26,7 +29,7 @@ def nvra_roundtrip(sym, with_dir, with_epoch, with_rpm, n_name, n_ver, n_rel, n_
         epoch = 0
     text = text + version + "-" + release + "." + arch
     if with_dir:
-        d = sym.str("dir", n_dir, alphabet=NAMEC + ["/"])
+        d = sym.str("dir", n_dir, alphabet=ANYDIR if any_dir else NAMEC + ["/"])
         text = d + "/" + text
     if with_rpm:
         text = text + ".rpm"
@@ -140,6 +143,10 @@ def jobs(tier, seed):
     for with_dir, with_epoch, with_rpm in ((False, False, False), (False, True, True), (True, False, True), (True, True, False)):
         out.append({"harness": "nvra_roundtrip",
                     "params": {"with_dir": with_dir, "with_epoch": with_epoch, "with_rpm": with_rpm, "n_name": 3, "n_ver": 2, "n_rel": 2, "n_dir": 2}})
+    # any directory prefix: every printable character (':' before an epoch-less name, dashes, dots, blanks)
+    for with_epoch, with_rpm in ((False, True), (True, False)):
+        out.append({"harness": "nvra_roundtrip", "solver_timeout_ms": 600000,
+                    "params": {"with_dir": True, "with_epoch": with_epoch, "with_rpm": with_rpm, "n_name": 2, "n_ver": 2, "n_rel": 2, "n_dir": 6 if big else 4, "any_dir": True}})
     for wr in (False, True):
         out.append({"harness": "long_directory", "params": {"n_dir": 300 if big else 100, "with_rpm": wr}, "solver_timeout_ms": 600000})
     for digits in ((11, 14, 19, 25) if big else (11, 19)):
@@ -166,7 +173,8 @@ META = {
     "expected_covers": {"long_directory": ["built", "parsed"], "big_epoch": ["built", "parsed"], "nvra_history": ["built", "parsed"], "nvra_roundtrip": ["built", "parsed"], "check_nevra_canonical": ["built", "checked"]},
     "assumptions": [
         "names over [A-Za-z0-9._+-] made of non-empty dash-separated segments, versions and releases over [A-Za-z0-9._+~^] (non-empty, no dash), arch any entry of the real "
-        "RPM_ARCHES table, epoch absent or 0..10^9, optional directory prefix over the name alphabet plus '/', optional '.rpm' suffix",
+        "RPM_ARCHES table, epoch absent or 0..10^9, optional directory prefix over the name alphabet plus '/', optional '.rpm' suffix; "
+        "two jobs with a directory of up to 4 (thorough 6) characters over all of printable ASCII (colons, blanks, ...)",
         "length bounds per job: quick name<=7, version/release<=4, directory<=3 (plus four jobs at 3/2/2/2); thorough 12/8/8/8; longer parts are outside the claim",
         "long_directory: a directory prefix of up to 100 (thorough 300) characters over {d, /} in front of a minimal file name",
         "big_epoch: epochs of exactly 11 and 19 (thorough also 14 and 25) decimal digits with parts of 1-2 characters",
